@@ -944,7 +944,11 @@ func (ce *cenv) evalCall(e *CExpr) cvar {
 		}
 		lo, hi := ce.evalInt(e.Args[1]), ce.evalInt(e.Args[2])
 		if !isInt(lo) || !isInt(hi) {
-			ce.fail("each needs concrete bounds (instantiated unit)")
+			// symbolic bounds: an ordinary quantifier  forall i int :: lo <= i && i < hi ==> body
+			i := &CExpr{Kind: "id", Name: e.Args[0].Name}
+			rng := &CExpr{Kind: "bin", Op: "&&", X: &CExpr{Kind: "bin", Op: "<=", X: e.Args[1], Y: i}, Y: &CExpr{Kind: "bin", Op: "<", X: i, Y: e.Args[2]}}
+			q := &CExpr{Kind: "quant", Op: "forall", Vars: []CVarDecl{{e.Args[0].Name, "int"}}, X: &CExpr{Kind: "bin", Op: "==>", X: rng, Y: e.Args[3]}}
+			return ce.evalQuant(q)
 		}
 		var cs []*Term
 		for k := lo.Val.Int64(); k < hi.Val.Int64(); k++ {
@@ -1210,8 +1214,9 @@ func (x *Exec) clauseEnv(fr *Frame, st *State, extra map[string]cvar) *cenv {
 }
 
 // evalCrypto: spec functions over byte arrays with a concrete length (instantiated units).
-//   cfbenc(block, dst, src, bs) / cfbdec(...): dst[0..len(src)) in the current state equals textbook
-//   CFB of src's bytes in the old state (IV = the package's initialVector in the old state).
+//
+//	cfbenc(block, dst, src, bs) / cfbdec(...): dst[0..len(src)) in the current state equals textbook
+//	CFB of src's bytes in the old state (IV = the package's initialVector in the old state).
 func (ce *cenv) evalCrypto(e *CExpr) cvar {
 	x := ce.x
 	if len(e.Args) != 4 {
